@@ -214,21 +214,23 @@ structure ProcK (Pts : Type) where
   /-- `Translation(-x.centre())` -/
   negCentre : Pts → Mat
   /-- `UniformScale(target.norm() / source.norm(), n_dims)` -/
-  scale : Pts → Pts → Mat
+  scale : Pts → Pts → Nat → Mat
   /-- `Similarity.init_identity(n_dims)` -/
   identity : Nat → Mat
   /-- `p.compose_before_inplace(t)`: the matrix of `p` followed by `t` -/
   before : Mat → Mat → Mat
-  /-- `Rotation(optimal_rotation_matrix(p.apply(source), tgt_t.apply(target), allow_mirror))` given `p`, `tgt_t` -/
-  rotation : Bool → Mat → Mat → Pts → Pts → Mat
+  /-- `optimal_rotation_matrix(p.apply(source), tgt_t.apply(target), allow_mirror)` given `p`, `tgt_t` -/
+  optimalRotation : Bool → Mat → Mat → Pts → Pts → Mat
+  /-- `Rotation(r)` -/
+  rotation : Mat → Mat
   /-- `t.pseudoinverse()` -/
   pinv : Mat → Mat
 
 /-- `procrustes_alignment(source, target, rotation, allow_mirror).h_matrix` -/
 def ProcK.procrustes (k : ProcK Pts) (nDims : Pts → Nat) (rotation allowMirror : Bool) (s t : Pts) : Mat :=
   let tgtT := k.negCentre t
-  let p := k.before (k.before (k.identity (nDims s)) (k.negCentre s)) (k.scale s t)
-  let p := if rotation then k.before p (k.rotation allowMirror p tgtT s t) else p
+  let p := k.before (k.before (k.identity (nDims s)) (k.negCentre s)) (k.scale s t (nDims s))
+  let p := if rotation then k.before p (k.rotation (k.optimalRotation allowMirror p tgtT s t)) else p
   k.before p (k.pinv tgtT)
 
 /-! ### generalized Procrustes analysis: its numerical operations one by one -/
@@ -238,17 +240,21 @@ structure GpaK (Pts S : Type) where
   meanOf : List Pts → Pts
   /-- `x.norm()` -/
   norm : Pts → S
-  /-- `scale_about_centre(c, a / c.norm())._apply_inplace(x)`: arguments `a`, `c`, `x` -/
-  rescale : S → Pts → Pts → Pts
+  /-- `a / b` -/
+  ratio : S → S → S
+  /-- `scale_about_centre(c, r)._apply_inplace(x)`: arguments `c`, `r`, `x` -/
+  scaleAbout : Pts → S → Pts → Pts
   /-- `np.linalg.norm(a.points - b.points)` -/
   dist : Pts → Pts → S
   /-- `· < 1e-6` -/
   below : S → Bool
 
-/-- the `GpaExt` these operations make up, as `_recursive_procrustes` combines them -/
+/-- the `GpaExt` these operations make up, as `_recursive_procrustes` combines them: the mean of the aligned
+sources, scaled about its own centre by `initial norm / its norm` -/
 def GpaK.toExt {S : Type} (k : GpaK Pts S) : GpaExt Pts where
   meanOf := k.meanOf
-  newTarget := fun initial aligned => k.rescale (k.norm initial) (k.meanOf aligned) (k.meanOf aligned)
+  newTarget := fun initial aligned =>
+    k.scaleAbout (k.meanOf aligned) (k.ratio (k.norm initial) (k.norm (k.meanOf aligned))) (k.meanOf aligned)
   closeEnough := fun a b => k.below (k.dist a b)
 
 /-- a `GeneralizedProcrustesAnalysis` object: exactly its instance attributes -/
